@@ -64,6 +64,11 @@ def sweep_docs(n):
     out.append(('funcnest', '<svg><rect wh="{{%s1%s}}"/></svg>' % ('abs(' * min(n, 20000), ')' * min(n, 20000))))
     out.append(('listlong', '<svg><rect wh="{{sum(%s)}}"/></svg>' % ', '.join('1' for _ in range(min(n, 20000)))))
     out.append(('forlist', '<svg><for var="i" data="%s"><rect wh="$i"/></for></svg>' % ', '.join(str(i) for i in range(n))))
+    dd = min(n, 60)
+    out.append(('varlimit-nested', '<svg>%s<var v="%s"/>%s</svg>' % ('<g><rect wh="1"/>' * dd, 'x' * 2000, '</g>' * dd)))
+    out.append(('looplimit-nested', '<svg>%s<loop count="2000"><rect wh="1"/></loop>%s</svg>' % ('<g><rect wh="1"/>' * dd, '</g>' * dd)))
+    out.append(('use-prev-cycle', '<svg><rect wh="10"/>%s</svg>' % ('<use href="^"/>' * min(n, 50))))
+    out.append(('reuse-prev-cycle', '<svg><rect wh="10"/>%s</svg>' % ('<reuse href="^"/>' * min(n, 50))))
     out.append(('xmlnest', '<svg>%s<rect wh="1"/>%s</svg>' % ('<a>' * n, '</a>' * n)))
     out.append(('gnest', '<svg>%s<rect wh="1"/>%s</svg>' % ('<g>' * n, '</g>' * n)))
     out.append(('flat', '<svg>%s</svg>' % ('<rect xy="^|h 1" wh="2"/>' * min(n, 20000))))
